@@ -25,6 +25,7 @@ def bases():
     b["replaceable"] = make_event("A", 10002, 1004, [["r", "wss://x"]], "")
     b["deletion"] = make_event("A", 5, 1005, [["e", "cd" * 32]], "")
     b["param_bare_d"] = make_event("A", 30000, 1006, [["t", "x"], ["d"]], "bare d")
+    b["ephemeral"] = make_event("A", 20001, 1008, [["t", "e"]], "ephemeral: broadcast, not stored on LMDB")
     b["by_service_key"] = make_event("S", 1, 1007, [["t", "svc"]], "signed by the relay's own service key")
     return b
 
@@ -348,7 +349,7 @@ def run_case(case):
 
 def coverage(tier, agg):
     return {
-        "rule": "8 valid base events (plain, tagged, unicode content, NIP-26 delegated, replaceable, deletion, parameterized replaceable with a bare d tag, one signed by the relay's service key) x [identity + %d single mutation "
+        "rule": "9 valid base events (ephemeral, plain, tagged, unicode content, NIP-26 delegated, replaceable, deletion, parameterized replaceable with a bare d tag, one signed by the relay's service key) x [identity + %d single mutation "
                 "operators + %s pairs of operators on distinct fields] + %d re-signed structurally wrong variants (forged/transplanted/"
                 "wrong-condition/truncated/bare/non-string delegation, string kind, wrong signer, upper-case pubkey, malformed tags with a "
                 "consistent id and a signature that fails only inside verification), x {websocket EVENT, direct add_event} x {sql, kv}; all single "
